@@ -7,7 +7,7 @@ run 3 W X Y &
 run 4 Z A R &
 run 5 S T U &
 run 6 V P Q &
-run 7 M N K J &
+run 7 M N K J L &
 wait
 { head -4 SWEEP_1.md; for i in 1 2 3 4 5 6 7; do tail -n +5 SWEEP_$i.md; done; } > SWEEP.md
 echo "sweep done: $(grep -c '| caught |' SWEEP.md) caught, $(grep -c 'NOT CAUGHT\|DOES NOT APPLY' SWEEP.md) not"
